@@ -34,6 +34,7 @@ type Interp struct {
 	bgCtx       *NativeObj
 	mainPkg     *ssa.Package
 	replaceAlways map[string]bool
+	syncMaps    map[*Value]*Map
 }
 
 type deferred struct {
@@ -1113,7 +1114,7 @@ func (in *Interp) callBuiltin(caller *frame, pos token.Pos, fn *ssa.Builtin, arg
 		switch x := args[0].(type) {
 		case *Map:
 			if x != nil {
-				x.entries, x.idx, x.nlive = nil, map[interface{}]int{}, 0
+				x.entries, x.idx, x.nlive, x.nsym = nil, map[interface{}]int{}, 0, 0
 			}
 		case Slice:
 			unsup("clear(slice)")
@@ -1256,6 +1257,9 @@ func (in *Interp) mapFind(m *Map, key Value) *mapEntry {
 			}
 		}
 		// symbolic keys present in the map may still alias
+		if m.nsym == 0 {
+			return nil
+		}
 		for _, e := range m.entries {
 			if e.deleted {
 				continue
@@ -1290,6 +1294,8 @@ func (in *Interp) mapInsert(m *Map, key, val Value) {
 	m.nlive++
 	if ck, ok := concreteKey(key); ok {
 		m.idx[ck] = len(m.entries) - 1
+	} else {
+		m.nsym++
 	}
 }
 
@@ -1299,6 +1305,8 @@ func (in *Interp) mapDelete(m *Map, key Value) {
 		m.nlive--
 		if ck, ok := concreteKey(e.k); ok {
 			delete(m.idx, ck)
+		} else {
+			m.nsym--
 		}
 	}
 }
